@@ -848,6 +848,7 @@ def run(ck):
                           "message_stage": o["stages"]} for c, o, _ in kept[:10]]
     ck.cov["trusted_base"] = TRUSTED
     ck.notes["null_cell_runs"] = null_cell_oracle(ck)
+    ck.notes["placement_runs"] = placement_oracle(ck)
     ck.log("correspondence: %d/%d agree; %s" % (len(kept) - len(bad), len(kept), {k: v for k, v in sorted(stats.items()) if k.startswith("exit:")}))
 
 
@@ -883,6 +884,54 @@ def null_cell_oracle(ck):
             ck.corr_problem("null-cell oracle could not run (%s)" % fmt, repr(ex)[:300])
         finally:
             shutil.rmtree(d, ignore_errors=True)
+    return n
+
+
+def placement_oracle(ck):
+    """Direct oracle: the run-space flags of the command line act on the run space that is in force, wherever it is written --
+    at the top level, under `pipeline:`, in a --run-space-file, or at the top level / in a file with a second (ignored) block under
+    `pipeline:`.  Three planned runs: a cap of 2 rejects the launch (exit 3, nothing written), a run-space dry run executes
+    nothing (exit 0, nothing written), a cap of 3 lets all three runs complete."""
+    import yaml
+    real = {"blocks": [{"mode": "by_position", "context": {"value": [1.0, 2.0, 3.0]}}]}
+    decoy = {"blocks": [{"mode": "by_position", "context": {"value": [9.0]}}]}
+    nodes = [{"processor": "FloatValueDataSourceWithDefault"}, {"processor": 'template:"out_{value}.txt":path'}, {"processor": "FloatTxtFileSaver"}]
+    fixed = [{"processor": "FloatValueDataSourceWithDefault"}, {"processor": "FloatTxtFileSaver", "parameters": {"path": "out_fixed.txt"}}]
+    n = 0
+    for place, nodes in [(pl, nd) for pl in ("top", "nested", "top+nested-decoy", "file", "file+nested-decoy") for nd in (nodes, fixed)]:
+        for flag, args, want_rc, want_out in (("cap-2", ["--run-space-max-runs", "2"], 3, 0), ("dry-run", ["--run-space-dry-run"], 0, 0),
+                                             ("cap-3", ["--run-space-max-runs", "3"], 0, 3 if nodes is not fixed else 1)):
+            d = tempfile.mkdtemp(prefix="verif_c17place_")
+            try:
+                doc = {"extensions": ["semantiva-examples"], "pipeline": {"nodes": nodes}}
+                argv = ["run", "p.yaml", "-q"] + args
+                if place.startswith("top"):
+                    doc["run_space"] = real
+                if place == "nested":
+                    doc["pipeline"]["run_space"] = real
+                if place.endswith("decoy"):
+                    doc["pipeline"]["run_space"] = decoy
+                if place.startswith("file"):
+                    with open(os.path.join(d, "rs.yaml"), "w") as f:
+                        yaml.safe_dump({"run_space": real}, f, sort_keys=False)
+                    argv += ["--run-space-file", "rs.yaml"]
+                with open(os.path.join(d, "p.yaml"), "w") as f:
+                    yaml.safe_dump(doc, f, sort_keys=False)
+                env = dict(os.environ)
+                env.update({"PYTHONPATH": core.REPO, "PYTHONHASHSEED": "0", "PYTHONDONTWRITEBYTECODE": "1"})
+                p = subprocess.run([core.PY, "-m", "semantiva.cli"] + argv, cwd=d, env=env, stdout=subprocess.PIPE, stderr=subprocess.PIPE,
+                                   text=True, timeout=TIMEOUT)
+                outs = sorted(x for x in os.listdir(d) if x.startswith("out_"))
+                n += 1
+                if p.returncode != want_rc or len(outs) != want_out:
+                    ck.fail_input("C17:run-space-flag-misses-the-run-space-in-force:%s:%s:%s" % (place, flag, "keys-optional" if nodes is fixed else "keys-required"),
+                                  "run space of 3 runs written %s, `%s`: exit code %d with output files %s; expected exit %d and %d file(s)"
+                                  % (place, " ".join(args), p.returncode, outs, want_rc, want_out),
+                                  {"kind": "placement", "place": place, "argv": argv, "yaml": yaml.safe_dump(doc, sort_keys=False), "stderr": p.stderr[-300:]})
+            except Exception as ex:  # noqa
+                ck.corr_problem("placement oracle could not run (%s, %s)" % (place, flag), repr(ex)[:300])
+            finally:
+                shutil.rmtree(d, ignore_errors=True)
     return n
 
 
